@@ -408,6 +408,18 @@ def merge(it, pred: SymBool, tv, fv):
     raise AnalysisError(f"cannot merge branches {type(tv).__name__} / {type(fv).__name__}")
 
 
+def _mod(it, a, k):
+    from .values import to_rat as _tr
+
+    x, y = _tr(a[0]), _tr(a[1])
+    if x.is_const() and y.is_const() and y.const_value() != 0:
+        import math as _m
+
+        q = x.const_value() / y.const_value()
+        return x.const_value() - y.const_value() * _m.floor(q)
+    return apply_fn("mod", x, y)
+
+
 def _it_product(it, a, k):
     import itertools as _itx
 
@@ -563,6 +575,8 @@ def install(interp):
     H["np.arange"] = _arange
     H["lax.cond"] = _lax_cond
     H["jax.lax.cond"] = _lax_cond
+    H["np.mod"] = _mod
+    H["np.remainder"] = _mod
     H["itertools.product"] = _it_product
     H["functools.partial"] = _partial
     H["partial"] = _partial
